@@ -255,6 +255,8 @@ type Sim struct {
 	// hand-off outcomes used, cyclically, by sender work inside a settle step that carries them
 	autoOutcomes []string
 	autoIdx      int
+	innerDt      int64 // clock advance of the ticks inside an automatic round
+	firstDt      int64 // clock advance of the first round of a settle step (0: one signal timeout)
 	curCycle   string
 	curTaskId  string
 	curCounter int
@@ -527,9 +529,22 @@ func (s *Sim) Exec(i int, st *Step) (ran bool) {
 		return s.stepShutdown()
 	case "quiesce":
 		return s.stepQuiesce(st.Rounds)
+	case "drain":
+		// finish what is queued without letting time pass (no new background period starts)
+		if !s.alive {
+			return false
+		}
+		s.fair = true
+		s.autoRound(0)
+		s.fair = false
+		return true
 	case "settle":
 		s.autoOutcomes, s.autoIdx = st.Outcomes, 0
-		defer func() { s.autoOutcomes = nil }()
+		s.firstDt = st.Dt
+		if lim := s.Cfg.SignalTimeoutMs / 4; st.Inner > 0 && st.Inner <= lim {
+			s.innerDt = st.Inner
+		}
+		defer func() { s.autoOutcomes, s.innerDt, s.firstDt = nil, 0, 0 }()
 		return s.stepSettle(st.Rounds)
 	}
 	return false
@@ -1062,6 +1077,7 @@ func (s *Sim) pendingWork() bool {
 func (s *Sim) autoRound(dt int64) {
 	Beat()
 	s.stepTick(dt)
+	inner := int64(0)
 	for guard := 0; guard < 10000; guard++ {
 		moved := false
 		for _, sub := range []string{"router", "store", "sender"} {
@@ -1073,7 +1089,13 @@ func (s *Sim) autoRound(dt int64) {
 			}
 		}
 		if s.inCQ > 0 || moved {
-			s.stepTick(0)
+			// time passes inside a round, but less than half a background period in total
+			d := s.innerDt
+			if inner+d > s.Cfg.SignalTimeoutMs/2 {
+				d = 0
+			}
+			inner += d
+			s.stepTick(d)
 			moved = true
 		}
 		if !moved {
@@ -1099,6 +1121,10 @@ func (s *Sim) stepSettle(rounds int) bool {
 		step = 1
 	}
 	for i := 0; i < rounds && s.alive; i++ {
+		if i == 0 && s.firstDt >= step {
+			s.autoRound(s.firstDt)
+			continue
+		}
 		s.autoRound(step)
 	}
 	return true
